@@ -24,7 +24,8 @@ type Case struct {
 	Picks  []int  `json:"picks,omitempty"`  // gate programs: schedule
 	Rounds int    `json:"rounds,omitempty"` // E3: how often the recorded round parameters are re-run on replay
 	Feed   int    `json:"feed,omitempty"`   // mapping-cap: connections offered
-	Mode   string `json:"mode,omitempty"`   // sequential | concurrent
+	Mode   string `json:"mode,omitempty"`   // sequential | concurrent | closer
+	Amp    bool   `json:"amp,omitempty"`    // server-cap: racers meet inside the admission path (GetConnectionID of the transport double)
 }
 
 // contend runs fn(i) on n goroutines released together by a spin barrier and returns
@@ -143,7 +144,11 @@ func TestReplay(t *testing.T) {
 		case "tunnel-cap":
 			roundTunnelCap(t, c)
 		case "mapping-cap":
-			roundMappingCap(t, c)
+			if c.Mode == "closer" {
+				roundMappingCloser(t, c)
+			} else {
+				roundMappingCap(t, c)
+			}
 		case "code-quota", "mapping-quota":
 			p := &vkit.Picks{List: c.Picks}
 			reportQuota(t, c, runQuota(c, p.Choose))
